@@ -199,6 +199,8 @@ def run_driver(driver, lines, timeout=1800):
 
     The drivers import only DPL.Model.* (no Mathlib); the model oleans must have been built (lean_stage does that
     because every property module imports its model)."""
+    if not lines:
+        return []       # an empty stratum (all generated cases filtered out): nothing to ask the model
     path = os.path.join("Drivers", driver + ".lean")
     data = "\n".join(lines) + "\n"
     rc, out, err = _run(["lake", "env", "lean", "--run", path], timeout, input_=data)
